@@ -13,9 +13,45 @@ TRUSTED = ("Trusted base: the simulator crate /verif/sim (tape, scheduler, injec
            "profile the test suite uses. Sampling: a clean batch is evidence for the runs explored, not a proof.")
 
 CLAIMED = {
+ "C02": dict(cat="fault_enumeration", design="5/C02",
+   technique="deterministic simulation of a damaged wire: sender Frame::write -> simulated line with exactly one injected fault -> receivers Frame::from_bytes and Frame::read; single-fault placements enumerated per sampled frame",
+   text="For each sampled frame the complete single-fault space of the property (every position x every replacement byte, every deletion, duplication, adjacent swap of unequal characters, every proper prefix) is enumerated on the line the real writer produced; every damaged line is decoded directly and read through the real stream reader under injected EINTR. Oracle: an error, or exactly the original frame. Enumeration is complete per frame; frames are sampled (192 quick / 6000 thorough, including maximal-length frames).",
+   note=TRUSTED),
+ "C08": dict(cat="exploration", design="5/C08",
+   technique="deterministic two-party protocol simulation with message-level fault injection and controller crash/restart; post-conditions on the real sign once faults stop",
+   text="Phase A drives 1-3 real VirtualSigns into arbitrary prior states with real Sign controllers of any type behind a fault-injecting bus (loss, duplication, reordering, damaged chunks/counts/config, foreign master) that crash at drawn message indices, plus raw traffic; all 13 protocol states, abandoned transfers and foreign-type configurations occur as prior states (probed). Phase B stops the faults and requires a fresh real controller to configure (or configure_if_needed within its contract), deliver 0-4 pages bit-exact, report the right flip style and flip, repeatedly. Exploration: prior states and page lists are sampled.",
+   note=TRUSTED + " configure_if_needed is judged only where the property quantifies it (DESIGN.md section 12 for the damaged-block corner)."),
+ "C09": dict(cat="exploration", design="5/C09",
+   technique="deterministic simulation with chunk-level fault injection; invariant check over the recorded message history of every transfer attempt",
+   text="Every configure / send_pages call of the real Sign is recorded and checked attempt by attempt: acknowledgement before data, per-item offsets 0,16,32.., chunk concatenation equals the item, count equals chunks since the request, result query only after the count, configuration = the type's 16-byte block. Retries are provoked by the real VirtualSign under lost/short/long/damaged chunks and by a scripted stub (arbitrary page sizes, 0..9 pages, one 65536-byte item reaching offset 0xFFF0). Exploration: inputs and fault sequences are sampled.",
+   note=TRUSTED),
+ "C10": dict(cat="exploration", design="5/C10",
+   technique="deterministic simulation of the controller against an adversarial bus (every reply drawn from the full reply alphabet); lock-step refinement against an executable reference model of the documented protocol",
+   text="The real Sign runs each operation against a bus stub whose every answer is drawn from the complete reply alphabet (own/foreign state reports and acks, wrong-operation acks, silence, controller-side messages, unknown frames, bus errors), biased per run so that full transfers, retries, resets and polling loops are reached. At each step the emitted message must equal what the reference model prescribes and the call must end when and how the model ends. Exploration: reply scripts are sampled (150k quick / 10M thorough), not enumerated.",
+   note=TRUSTED + " The reference model pins current behaviour at three documented-as-open points (DESIGN.md C10)."),
+ "C11": dict(cat="exploration", design="5/C11",
+   technique="deterministic simulation against an adversarial bus; history invariants (fail-stop, own address, bounded justified retries, confirmed success) checked on every recorded conversation",
+   text="Same adversarial simulation as C10 with its own seed stream, judged by six invariants evaluated on the recorded conversation only (no reference conversation): own address on everything emitted, bus error final and propagated, disallowed reply final and reported, at most three attempts with each retry justified by an own 'failed' report, success only after an own 'received' report, foreign addresses never treated as own.",
+   note=TRUSTED),
  "C12": dict(cat="exploration", design="5/C12",
    technique="deterministic simulation: seeded traffic + message-level fault injection into real VirtualSign(s), catch_unwind oracle, tape shrinking and replay",
    text="Seeded simulation of a bus of 1-3 real VirtualSigns under hostile traffic: real Sign controllers behind a fault-injecting bus (loss, reply loss, duplication, reordering, short/long chunks, damaged offsets/counts/config blocks, foreign master, controller crash) mixed with a state-aware raw generator over the whole alphabet, plus flood runs that take the chunk counter past 65535. Oracle: no delivery ever unwinds. Exploration level because histories are sampled (50k quick / 5M thorough), not enumerated.",
+   note=TRUSTED),
+ "C15": dict(cat="fault_enumeration", design="5/C15",
+   technique="deterministic stream-fault simulation: Frame::read / Frame::write over a simulated stream with fragmentation, EINTR, short and zero writes, EOF and a hard error at every I/O call index",
+   text="Real Frame::read is run over simulated streams of several lines plus trailing bytes; after every call the bytes handed out by the stream must equal the index just past the first line feed and the result must equal decoding exactly that line. Fragment sizes and EINTR are drawn; then a hard error is placed at every I/O call index in turn, and for short streams every composition into fragment sizes is enumerated. Real Frame::write is run against sinks that accept a drawn number of bytes, interrupt, fail or accept zero bytes at every call index. Fault placements are exhaustive per case; cases are sampled.",
+   note=TRUSTED),
+ "C16": dict(cat="fault_enumeration", design="5/C16",
+   technique="deterministic port-fault simulation: real SerialSignBus over a simulated serial device, failure injected at each port operation, oracle over the port's operation log",
+   text="Every message kind x reply-line kind (known, unknown, malformed, bad checksum, wrong length, timeout, EOF) runs on a real SerialSignBus over the simulated port with fragmented reads, EINTR and short writes, then with a hard failure at every port operation index in turn. Judged on the port log: exactly the frame encoding + CRLF written once, a read iff hello/query/request, exactly one line consumed (a sentinel line stays), result = decoding of that line, failures never turned into Ok. Placements exhaustive per case; cases sampled.",
+   note=TRUSTED),
+ "C18": dict(cat="exploration", design="5/C18",
+   technique="deterministic simulation with a simulated clock behind the sleep seam; intervals measured at the simulated port's write/read boundaries (simulated + real monotonic time)",
+   text="Sequences of messages with scripted replies run on a real SerialSignBus whose pacing sleeps advance a simulated clock; every interval is simulated time plus real elapsed time, so a tree that bypasses the seam is still measured. Asserted: >= 30 ms from the end of a data chunk's write to the next write and to the return; >= 100 ms from receiving an in-progress report to the return; every other exchange < 30 ms (minimum over repeated trials).",
+   note=TRUSTED),
+ "C20": dict(cat="fault_enumeration", design="5/C20",
+   technique="deterministic device-configuration fault simulation: full product of prior port settings x entry points x failure at each configuration call",
+   text="configure_port, SerialSignBus::try_new and Odk::try_new run on a simulated serial device for the full product of prior settings representable by the settings type (12 baud classes x 4 x 3 x 2 x 3) with a failure injected at none / read_settings / set_baud_rate / write_settings / set_timeout. Without failure the device must end at 19200 8N1 without flow control and the right timeout; with a failure the constructor must return that very error. The product is exhaustive; BaudOther values and timeouts are sampled.",
    note=TRUSTED),
  "C13": dict(cat="exploration", design="5/C13",
    technique="deterministic simulation: lock-step refinement of real VirtualSign(s) against an executable reference state machine under seeded traffic and fault injection",
